@@ -61,6 +61,19 @@ def run(ctx: Context) -> None:
         ok = ear is not None and conc is not None and zero is not None and _line(conc) < _line(zero) and _line(zero) < _line(ear)
         ctx.check('R14.1', ok, "and exactly those cells are iterated by the ear clipping path (same index array)", td, ear or td.node,
                   construct='for i in concave: ...')
+        # the set is computed for every dataset: the only definition reaching both uses is that comparison, and it is not under a condition
+        if conc is not None and zero is not None and ear is not None:
+            from .common import facts as _facts
+            tflow = ctx.flow(td)
+            zi = zero.targets[0].slice if isinstance(zero.targets[0], ast.Subscript) else None
+            others = []
+            for u in (zi, ear.iter):
+                if isinstance(u, ast.Name):
+                    others += [d for d in tflow.defs_of(u) if d.stmt is not conc]
+            conds = [f"`{t}` is {pol}" for t, pol in _facts(ctx, td, conc, expand=False)]
+            ctx.check('R14.1', not others and not conds, "the concave cells are found for every dataset, whatever its convention or options: no other value (an empty set for grids "
+                      "\"known\" to be convex - curvilinear cells need not be) reaches the fan and ear paths", td, (others[0].stmt if others else conc),
+                      construct=f"other definitions reaching the uses: {[norm_text(d.stmt)[:50] for d in others if d.stmt is not None] or 'none'}; conditions on the computation: {conds or 'none'}")
         # the distinct lengths, of all cells (length 0 is then skipped in the loop) or of the cells that still have one
         NONZERO = ('$length[$length != 0]', '$length[numpy.nonzero($length)]', '$length[$length > 0]', '$length[numpy.flatnonzero($length)]')
         ul = m.stmt('$unique = numpy.unique($length)')
